@@ -165,7 +165,7 @@ def gen_prog(rng):
             name = 'r%d' % k
             steps.append(dict(kind='num', name=name, ast=seq, unit=unit))
             work['nodes'].append(dict(path=name, type='float', value=v, unit=unit, computed=True,
-                                      relerr=slack / abs(v), text=None))
+                                      relerr=slack / abs(v), text=None, nocmp=not (1 <= abs(v) <= 1e9)))
         elif r < 0.8:
             g = R.LogGen(rng, work, mixed=0.0, two_lit=0.0)
             g.triggers = 1          # no recorded-defect triggers inside programs
@@ -180,6 +180,10 @@ def gen_prog(rng):
             work['nodes'].append(dict(path=name, type='bool', value=val, computed=True, text='true' if val else 'false'))
         else:
             parts = R.TplGen(rng, work).gen()
+            try:
+                R.tpl_expected(parts, work)
+            except R.Undefined:
+                continue
             k += 1
             name = 'r%d' % k
             steps.append(dict(kind='tpl', name=name, ast=parts))
